@@ -195,6 +195,7 @@ func init() {
 		Units: serveUnits,
 		Runs: []Run{
 			{Pkg: "fasthttp", Func: "vhC02UnreadBody", Quick: map[string]int{"big": 1}, Thorough: map[string]int{"big": 1}},
+			{Pkg: "fasthttp", Func: "vhC02StreamAcrossConns"},
 		},
 		Assume: []string{serveAssume,
 			"input family: POST /first whose body spells a complete request (31 bytes, or 9031 bytes with the request-shaped bytes after the 8 KiB prefetch), fixed-length or chunked, with/without Expect: 100-continue (accepted or rejected by ContinueHandler), followed by GET /second in the same or the next segment; handler reads none, 5 bytes or all of the stream; StreamRequestBody on/off; the inputs are choices over this grammar (no free symbolic bytes), all decided on the symbolic executor",
